@@ -56,6 +56,16 @@ def check(run):
             f = {"name": list(b"f.bin"), "pattern": {"n": ln, "a": rng.randrange(1, 256), "b": rng.randrange(256)}}
         cases.append(Case([{"op": "meta.fiin", "case": n, "files": [f]}], desc={"sha1-of-length": ln}, key="sha-%d" % ln))
         n += 1
+    # several files in one call (the hasher's state must not carry over from one file to the next): tails that shrink and grow
+    for lens in ([30, 10], [100, 70], [64, 0, 1], [63, 62, 61, 5], [120, 55, 56, 119, 0], [200, 199, 65, 64, 63, 1, 0, 300]):
+        fs = [{"name": list(b"f%d.bin" % i), "content": [rng.randrange(1, 256) for _ in range(ln)]} for i, ln in enumerate(lens)]
+        cases.append(Case([{"op": "meta.fiin", "case": n, "files": fs}], desc={"sha1-of-lengths": lens}, key="sha-multi-%s" % lens))
+        n += 1
+    for _ in range(10 if run.tier == "quick" else 100):
+        lens = [rng.choice([0, 1, 9, 54, 55, 56, 57, 63, 64, 65, 119, 120, 128, 250]) for _ in range(rng.randint(2, 6))]
+        fs = [{"name": list(b"r%d.bin" % i), "content": [rng.randrange(1, 256) for _ in range(ln)]} for i, ln in enumerate(lens)]
+        cases.append(Case([{"op": "meta.fiin", "case": n, "files": fs}], desc={"sha1-of-lengths": lens}, key="sha-multi-%d" % n))
+        n += 1
     if run.tier == "thorough":
         for ln in (1048576 + 119, 3 * 1048576 + 63):
             f = {"name": list(b"big.bin"), "pattern": {"n": ln, "a": rng.randrange(1, 256), "b": rng.randrange(256)}}
